@@ -163,7 +163,10 @@ fn returned_set(rng: &mut Rng, universe: &[Id], target: &Id, responder: &Id, mat
             1 => *responder,
             _ => *rng.pick(universe),
         };
-        v.push((id, *matching.get(&id).unwrap_or(&false)));
+        // the same node may be reported with different records over time (stale table entry,
+        // then a fresh record): the predicate outcome is a property of the report, not of the id
+        let base = *matching.get(&id).unwrap_or(&false);
+        v.push((id, if rng.chance(1, 5) { !base } else { base }));
     }
     v
 }
